@@ -409,10 +409,12 @@ pub fn run_c17_shape<S: Shape>(run: &mut Run, shape_idx: u64, desc: &'static str
             }
         }
         // (ii) keyframe_from copies exactly the animated fields
-        for _ in 0..4 {
+        for round in 0..6 {
             let mut v = S::default();
             for i in 0..S::n() {
-                v.set(i, gen_value(&mut r, S::KINDS[i]));
+                // some fields hold exactly the type's default (0): they must be copied like any other value
+                let zero = round >= 3 && r.chance(1, 2);
+                v.set(i, if zero { 0.0 } else { gen_value(&mut r, S::KINDS[i]) });
             }
             let p = *r.pick(&[0.0f32, 0.25, 0.5, 1.0]);
             let tl = S::build_from_value(&v, p);
